@@ -81,18 +81,24 @@ def h_dt(l, r, N, mode, ext=True):
     return body
 
 
-def h_ct(l, r, ns, mode):
+def h_ct(l, r, ns, mode, grid=None, parts=None, pastify=False):
     l, r = T(l), T(r)
     vs = sorted(variables(l) | variables(r))
 
     def body(env):
         A = env.A
-        sl = ct.make_spec(mode, 'out = ' + text(l), vs)
-        sr = ct.make_spec(mode, 'out = ' + text(r), vs)
-        sigs = {v: ct.signal(env, v, n, 'zero') for v, n in zip(vs, ns)}
+        sl = ct.make_spec(mode, 'out = ' + text(l), vs, pastify=pastify)
+        sr = ct.make_spec(mode, 'out = ' + text(r), vs, pastify=pastify)
+        sigs = {v: ct.signal(env, v, n, 'zero', grid=grid) for v, n in zip(vs, ns)}
         mk = lambda: [[v, [list(p) for p in sigs[v]]] for v in vs]
         if mode == 'offline':
             ol, or_ = sl.evaluate(*mk()), sr.evaluate(*mk())
+        elif parts:
+            # the same signal fed to both monitors in several update() calls (concrete time grid, symbolic values)
+            ol, or_ = [], []
+            for part in parts:
+                ol += sl.update(*[[v, [list(sigs[v][i]) for i in part]] for v in vs])
+                or_ += sr.update(*[[v, [list(sigs[v][i]) for i in part]] for v in vs])
         else:
             ol, or_ = sl.update(*mk()), sr.update(*mk())
         ol, or_ = [list(p) for p in ol], [list(p) for p in or_]
@@ -148,5 +154,18 @@ def obligations(tier, rng):
             out.append(ob('C18', 'ct', 'ct-offline/%s/%s/n=%s' % (name, oname, ns), l=L, r=R, ns=ns, mode='offline', max_paths=40000, wall=1200))
             if not fut:
                 out.append(ob('C18', 'ct', 'ct-online/%s/%s/n=%s' % (name, oname, ns), l=L, r=R, ns=ns, mode='online', max_paths=40000, wall=1200))
+    # dense online, several update() calls: nested bounded operators (the inner one re-emits boundary samples at every update boundary),
+    # written with past operators and as pastified bounded-future operators
+    g6 = [0, 1, 2, 3, 4, 5]
+    chunked = []
+    for (a, b), (c, d) in ([((0, 1), (1, 1)), ((1, 2), (0, 1))] if quick else [((0, 1), (1, 1)), ((1, 2), (0, 1)), ((0, 1), (0, 1)), ((1, 1), (1, 2)), ((0, 2), (1, 1))]):
+        chunked.append(('OO/%d,%d;%d,%d' % (a, b, c, d), ('once_t', ('once_t', X, c, d), a, b), ('once_t', X, a + c, b + d), False))
+        chunked.append(('dual-O-nested/%d,%d;%d,%d' % (a, b, c, d), ('not', ('once_t', ('once_t', X, c, d), a, b)), ('historically_t', ('not', ('once_t', X, c, d)), a, b), False))
+        chunked.append(('FF/%d,%d;%d,%d' % (a, b, c, d), ('eventually_t', ('eventually_t', X, c, d), a, b), ('eventually_t', X, a + c, b + d), True))
+        chunked.append(('dual-F-nested/%d,%d;%d,%d' % (a, b, c, d), ('not', ('eventually_t', ('eventually_t', X, c, d), a, b)), ('always_t', ('not', ('eventually_t', X, c, d)), a, b), True))
+    for name, l, r, pst in chunked:
+        for parts in ([[0, 1, 2], [3, 4, 5]], [[0], [1], [2], [3], [4], [5]]) if quick else ([[0, 1, 2], [3, 4, 5]], [[0], [1], [2], [3], [4], [5]], [[0, 1], [2, 3, 4], [5]], [[0, 1, 2, 3], [4], [5]]):
+            out.append(ob('C18', 'ct', 'ct-online-chunked/%s/%s' % (name, ';'.join(','.join(map(str, q)) for q in parts)), l=l, r=r, ns=[6], mode='online', grid=g6, parts=parts,
+                          pastify=pst, max_paths=60000, wall=1200))
     seen = set()
     return [o for o in out if not (o['oid'] in seen or seen.add(o['oid']))]
